@@ -104,6 +104,17 @@ def with_lines():
                 continue
             lines = set()
             for node in ast.walk(tree):
+                if isinstance(node, ast.Try):
+                    # the header line of a try statement: "acquire(); try:"
+                    # is the accepted idiom although an asynchronous
+                    # exception could in principle arrive between the two;
+                    # not held against the code (DESIGN 10.5)
+                    lines.add(node.lineno)
+                    # ... and the clean-up code of a finally block itself
+                    for st in node.finalbody:
+                        lines.update(range(st.lineno,
+                                           getattr(st, 'end_lineno',
+                                                   st.lineno) + 1))
                 if isinstance(node, (ast.With, ast.AsyncWith)):
                     last = max(getattr(it.context_expr, 'end_lineno',
                                        node.lineno) for it in node.items)
